@@ -15,6 +15,10 @@ EXC_NAMES = {"ValueError", "IndexError", "RuntimeError", "TypeError", "KeyError"
 SCALAR_KINDS = ("int", "real", "bool")
 
 
+C_LIBM = {"sin": "sin", "cos": "cos", "sinh": "sinh", "fabs": "fabs", "log10": "log10", "log": "log", "exp": "exp",
+          "asin": "arcsin", "acos": "arccos", "atan2": "arctan2", "tan": "tan", "pow": "power"}
+
+
 class ExprMixin:
     # ------------------------------------------------------------ dispatcher
     def ev(self, node, st, fr):
@@ -82,6 +86,27 @@ class ExprMixin:
             g = self.module_global(fr.module, name)
             if g is not UNDEF:
                 return g
+            cmod = self.idx.extra.get(fr.module)
+            if cmod is not None and getattr(cmod, "_path", "").endswith((".c", ".cc")):
+                # a translated C module: libm by name, other functions of the same file on demand
+                if name in C_LIBM:
+                    return Prim("numpy." + C_LIBM[name])
+                if name in ("PyArray_ZEROS",):
+                    return Prim("builtin." + name)
+                g = self.load_c_sibling(fr.module, cmod, name)
+                if g is not None:
+                    return g
+                # a function of another translation unit that is under contract (linked by name, as the C linker does)
+                for cname, cc in self.contracts.items():
+                    base = cname.split("#")[0]
+                    if cc.lang == "c" and base.endswith("." + name):
+                        from . import cfront
+                        m2, q2, node2, _ = cfront.load_c_function(self.idx, cc)
+                        from .repoindex import label_loops
+                        if not hasattr(node2, "_labelled"):
+                            label_loops(node2)
+                            node2._labelled = True
+                        return Func(m2, q2, node2)
         if fr.spec and fr.outer_module:
             g = self.module_global(fr.outer_module, name)
             if g is not UNDEF:
@@ -99,6 +124,20 @@ class ExprMixin:
                      "yields_items_of", "mapped", "induct", "assume_axiom", "chunk_off", "defined_len", "is_permutation",
                      "bo_fields", "bo_order", "bo_bytes", "bo_swapped", "bo_value", "bo_big", "bo_little", "bo_native",
                      "bo_names", "machine_little", "approx", "psum"}
+
+    def load_c_sibling(self, modname, cmod, name):
+        from . import cfront
+        import os
+        try:
+            decl = cfront.clang_ast(cmod._path, name)
+        except Unsupported:
+            return None
+        fn = cfront.CTranslator(decl, cmod._path).function()
+        from .repoindex import label_loops
+        label_loops(fn)
+        fn._labelled = True
+        cmod.body.append(fn)
+        return Func(modname, name, fn)
 
     def builtin(self, name):
         if name in EXC_NAMES:
@@ -650,6 +689,16 @@ class ExprMixin:
                     m = self.find_method(h.cls, attr, fr)
                     if m is not None:
                         return Bound(v, m)
+                    # method of an extension type implemented in C under contract: <Class>_<method>
+                    for cname, cc in self.contracts.items():
+                        if cc.lang == "c" and cname.split("#")[0].endswith(".%s_%s" % (h.cls, attr)):
+                            from . import cfront
+                            from .repoindex import label_loops
+                            m2, q2, node2, _ = cfront.load_c_function(self.idx, cc)
+                            if not hasattr(node2, "_labelled"):
+                                label_loops(node2)
+                                node2._labelled = True
+                            return Bound(v, Func(m2, q2, node2))
                 if h.cls == "dict" or attr in ("get", "clear", "keys", "items", "update"):
                     return Bound(v, Prim("dict." + attr))
                 raise Unsupported("attribute %s of %s" % (attr, h.cls), node)
